@@ -225,8 +225,46 @@ def dict_store(I, st, ref, k, v):
     h.vals = z3.Store(h.vals, kt, vt)
 
 
+def lastwins_dict(I, st, listref, cls=None):
+    """dict(<pairs>) / OrderedDict(<pairs>) where <pairs> is a pure map `[(key(x), val(x)) for x in S]`
+    over a heap list S of unknown length (loops.py records the element function): a mapping in which a
+    key is present iff some element of S produces it and looks up the value of the LAST such element.
+    -> Ref, or None when the argument is not such a list"""
+    if not (isinstance(listref, Ref) and st.heap[listref.oid].kind == "list"):
+        return None
+    mp = st.heap[listref.oid].fields.get("$map")
+    if mp is None:
+        return None
+    seq, x, t = mp
+    if not (z3.is_app(t) and t.decl().name() == "tuple2"):
+        return None
+    r = I.alloc_dict(st, keys=I.U.fresh_seq("lw_keys"), vals=z3.Const("lw_vals!%d" % I.new_oid(), z3.ArraySort(vm.V, vm.V)), cls=cls or "dict")
+    st.heap[r.oid].fields["$lastwins"] = (seq, x, t.arg(0), t.arg(1))
+    return r
+
+
+def _struct_eq(a, b):
+    """equality of two terms, component-wise when both are canonical tuple terms (tupleN(...) is
+    injective)"""
+    if z3.is_app(a) and z3.is_app(b) and a.decl().name().startswith("tuple") and a.decl().name() == b.decl().name() \
+            and a.num_args() == b.num_args() and a.num_args() > 0:
+        return z3.And([_struct_eq(a.arg(i), b.arg(i)) for i in range(a.num_args())])
+    return a == b
+
+
+def _lastwins_nokey(I, h, kt):
+    """fold: no element of a sequence produces the key kt"""
+    from .spec import fold
+    seq, x, key_t, val_t = h.fields["$lastwins"]
+    return fold(I, "no_element_has_key_%d_%d" % (key_t.get_id(), kt.get_id()),
+                lambda y: z3.Not(_struct_eq(z3.substitute(key_t, (x, y)), kt)))
+
+
 def dict_has(I, st, ref, k):
     h = st.heap[ref.oid]
+    if h.fields.get("$lastwins") is not None:
+        kt = I.term(k)
+        return BoolV(z3.Not(_lastwins_nokey(I, h, kt).sfn(h.fields["$lastwins"][0])))
     pk = _pykey(k)
     if h.ckeys is not None:
         if pk is not None:
@@ -247,6 +285,19 @@ def dict_load_c(I, st, ref, pk):
 def dict_get(I, st, ref, k):
     """value stored under k (caller has established membership)"""
     h = st.heap[ref.oid]
+    if h.fields.get("$lastwins") is not None:
+        # the value produced by the LAST element y* of S whose key is k:  S = pre ++ [y*] ++ post,
+        # key(y*) == k, no element of post has key k
+        seq, x, key_t, val_t = h.fields["$lastwins"]
+        kt = I.term(k)
+        f = _lastwins_nokey(I, h, kt)
+        y = I.U.fresh("last_with_key")
+        pre, post = I.U.fresh_seq("lw_pre"), I.U.fresh_seq("lw_post")
+        st.pc += [seq == z3.Concat(pre, z3.Unit(y), post), _struct_eq(z3.substitute(key_t, (x, y)), kt), f.sfn(post)]
+        st.ghost["$lastwins_lookup"] = st.ghost.get("$lastwins_lookup", []) + [(kt, y, pre, post)]
+        r = z3.substitute(val_t, (x, y))
+        I.U.well_typed(r)
+        return Sym(r)
     pk = _pykey(k)
     if pk is not None and ("k", pk) in h.fields and h.ckeys is not None:
         return h.fields[("k", pk)]
